@@ -23,6 +23,10 @@ from obl.C14 import replay_obl
 from obl.vset_common import reuse_manifest_obls
 OBLIGATIONS += [replay_obl(1, 0, 1, 2, l2level=6)] + reuse_manifest_obls("r")
 
+# b: the MANIFEST/CURRENT switch at open is ordered and failure-atomic (real ldb_versions_apply)
+from obl.vset_more import apply_obls
+OBLIGATIONS += [o for o in apply_obls("b") if "first" in o.name]
+
 META = {
     "level": "model_checking",
     "level_text": "Bounded model checking (CBMC) of the real ldb_open / ldb_recover / ldb_new_db / ldb_recover_log_file / ldb_write_level0_table / ldb_remove_obsolete_files / ldb_maybe_schedule_compaction / ldb_destroy_internal of src/db_impl.c (#included) over a symbolic directory, symbolic MANIFEST counters, a symbolic record source per log and symbolic failures of every env call. Asserted: recovery replays a prefix-closed, ordered selection of each log (everything the reader returns, minus what it reports as dropped), never deletes, renames or truncates anything before the recovery edit is applied, afterwards removes only logs that were replayed completely (or were already obsolete), tables outside the version and the edit, and older MANIFESTs; a successful open ends with a live memtable, an open log named by logfile_number above every replayed log, last_sequence above every recovered sequence and the lock held; a failed open returns the error, leaves *dbptr NULL, releases the lock iff it was taken and closes everything; creating a new database commits CURRENT only after MANIFEST-1 was written, synced and closed.",
